@@ -175,7 +175,7 @@ GENERIC_RULES_DOC = [
     "static_cast/reinterpret_cast/const_cast<T>(e) -> ((T)(e))",
     "nullptr -> 0 ; and/or/not -> && || !",
     "auto / const auto -> __auto_type (GNU C)",
-    "assert(e) -> BT_ASSERT(e) == __CPROVER_assert(e, \"repo assert\")",
+    "assert(e) -> BT_ASSERT(e) == __CPROVER_assert(e, \"repo assert\"); static_assert(e, msg) inside a body -> BT_STATIC_ASSERT(e, msg) == __CPROVER_assert(e, ...) (checked, not dropped)",
     "static_cast<void>(x); -> (void)x;",
     "constexpr -> const ; 'static const(expr)' local -> const",
     "this-> -> self-> ; bare identifier with trailing underscore -> self-><id> (member naming convention of bluetoe), unless excluded per unit",
@@ -237,7 +237,8 @@ def generic_rewrite(text, fired, member_exclude=(), member_extra=(), no_members=
     text = sub('or', r'\bor\b', '||', text)
     text = sub('not', r'\bnot\b', '!', text)
     text = sub('auto', r'\b(?:const\s+)?auto\b(?!\s*&)', '__auto_type', text)
-    text = sub('assert', r'\bassert\s*\(', 'BT_ASSERT(', text)
+    text = sub('static_assert', r'\bstatic_assert\s*\(', 'BT_STATIC_ASSERT(', text)
+    text = sub('assert', r'(?<![\w])assert\s*\(', 'BT_ASSERT(', text)
     text = sub('static-constexpr', r'\bstatic\s+constexpr\b', 'const', text)
     text = sub('constexpr', r'\bconstexpr\b', 'const', text)
     text = sub('std::min<T>', r'\bstd\s*::\s*min\s*<\s*([^<>;(){}]*?)\s*>\s*\(', r'BT_MIN_T(\1, ', text)
